@@ -116,7 +116,9 @@ class ExecGet(_Exec):
     def setup(self, it, env):
         st = it.st
         super().setup(it, env)
-        self.instance = fresh_input_ref(it, "instance")
+        # descriptor protocol: instance is None when the attribute is read on the class (Cls.method)
+        self.instance = V.VNone if st.fork("accessed-through", [("an-instance", True), ("the-class", True)]) == 1 \
+            else fresh_input_ref(it, "instance")
         self.owner = st.fresh_val("owner")
         st.assume(z3.Or(V.is_none(self.owner), V.is_cls(self.owner)))
         return method(it, self.info, self.obj, "__get__"), CallArgs([self.instance, self.owner])
@@ -129,8 +131,11 @@ class ExecGet(_Exec):
             ok = pv is not None and isinstance(fv, FuncV) and fv.qualname.endswith("__method_call__") and \
                 fv.bound is not None and fv.bound.eq(self.obj) and len(pv.args) == 1 and pv.args[0].eq(self.instance)
             st.check("P1:access-through-an-instance-binds-the-receiver-to-the-executor-method-path", z3.BoolVal(bool(ok)))
+            st.check("P1:access-on-the-class-binds-no-receiver(Cls.method(obj, ...) passes obj itself)",
+                     z3.BoolVal(it.kind(self.instance) != "none"))
         else:
-            st.check("P1:access-without-an-owner-returns-the-wrapper-itself", z3.And(V.is_none(self.owner), ret == self.obj))
+            st.check("P1:only-access-without-an-instance-or-owner-returns-the-wrapper-itself",
+                     z3.And(z3.Or(V.is_none(self.owner), V.is_none(self.instance)), ret == self.obj))
 
     def on_raise(self, it, exc):
         it.st.check("P1:attribute-access-never-raises", z3.BoolVal(False))
